@@ -371,6 +371,117 @@ def _run(fn, kind):
 # split_matrix_svd: isometry of both factors (u^H u = I, v v^H = I) through the block loop, the truncation gather and the
 # un-sorting permutations.  (The product / error identity of the truncated SVD stays with the bounded stand-in.)
 
+TRIS = {}
+
+
+def unwind1(S):
+    """1-D analogue of unwind for the vector of singular values: S[c] = root[c + shift] along slices"""
+    shift = z3.IntVal(0)
+    while S.origin and S.origin[0] == 'view':
+        _, base, how = S.origin
+        if how[0] != 'shift':
+            return None
+        shift = shift + how[1]; S = base
+    return S, shift
+
+
+def tri_of(ex, st, node, U, S, V):
+    """Tri(i, j, lo, hi) = sum_{lo <= c < hi} U[i, c] * S[c] * V[c, j]  -- the range sum of the (truncated) singular value
+    decomposition; same rules as Dot, applied to the three arrays in lockstep"""
+    key = (id(U), id(S), id(V))
+    if key in TRIS:
+        return TRIS[key][0]
+    Tn = z3.Function(f'Tri{next(_n)}', I, I, I, I, Rl)
+    TRIS[key] = (Tn, U, S, V)
+    st.pc += generic_axioms(Tn)
+    i, j, c, a, b = z3.Ints('i j c a b')
+    ou, os_, ov = (U.origin or ('?',))[0], (S.origin or ('?',))[0], (V.origin or ('?',))[0]
+    if 'zeros' in (ou, os_, ov):
+        st.pc.append(z3.ForAll([i, j, a, b], Tn(i, j, a, b) == 0))
+        return Tn
+    if ou == 'store' and os_ == 'store' and ov == 'store':
+        _, Ub, (uc0, uc1, uo0, uo1, _k1), uv = U.origin
+        _, Sb, (slo, shi), sv = S.origin
+        _, Vb, (vc0, vc1, vo0, vo1, _k2), vv = V.origin
+        Tb = tri_of(ex, st, node, Ub, Sb, Vb)
+        info = uv.origin[1] if getattr(uv, 'origin', None) and uv.origin[0] == 'lapack' else None
+        if info is None or not all(getattr(x, 'origin', None) and x.origin[0] == 'lapack' and x.origin[1] is info for x in (sv, vv)):
+            return Tn
+        lo, hi = uo1, uo1 + zint(uv.shape[1])
+        if not prove(ex, st, node, 'the three slice stores use the same range of intermediate indices',
+                     z3.And(vo0 == lo, slo == lo, shi == hi, zint(vv.shape[0]) == hi - lo, lo >= 0)):
+            return Tn
+        if prove(ex, st, node, 'congruence (SVD): entries left of the stored block are unchanged',
+                 z3.And(z3.ForAll([i, c], z3.Implies(z3.And(c >= 0, c < lo), U.val(i, c) == Ub.val(i, c))),
+                        z3.ForAll([c], z3.Implies(z3.And(c >= 0, c < lo), S.a(c) == Sb.a(c))),
+                        z3.ForAll([c, j], z3.Implies(z3.And(c >= 0, c < lo), V.val(c, j) == Vb.val(c, j))))):
+            st.pc.append(z3.ForAll([i, j], Tn(i, j, 0, lo) == Tb(i, j, 0, lo)))
+        B = info['B']; i0, j0 = uo0, vo1
+        inrow = lambda t: uc0(t); incol = lambda t: vc1(t)
+        if prove(ex, st, node, 'congruence (SVD): the stored block holds the factors returned by np.linalg.svd',
+                 z3.And(z3.ForAll([i, c], z3.Implies(z3.And(inrow(i), c >= lo, c < hi), U.val(i, c) == uv.val(i - i0, c - lo))),
+                        z3.ForAll([c], z3.Implies(z3.And(c >= lo, c < hi), S.a(c) == sv.a(c - lo))),
+                        z3.ForAll([c, j], z3.Implies(z3.And(incol(j), c >= lo, c < hi), V.val(c, j) == vv.val(c - lo, j - j0))),
+                        hi - lo == info['k'])):
+            st.pc.append(z3.ForAll([i, j], z3.Implies(z3.And(inrow(i), incol(j)), Tn(i, j, lo, hi) == B.val(i - i0, j - j0))))
+        if prove(ex, st, node, 'vanish (SVD): the new columns of the left factor are zero outside the rows of the block',
+                 z3.ForAll([i, c], z3.Implies(z3.And(z3.Not(inrow(i)), c >= lo, c < hi), U.val(i, c) == 0))):
+            st.pc.append(z3.ForAll([i, j], z3.Implies(z3.Not(inrow(i)), Tn(i, j, lo, hi) == 0)))
+        if prove(ex, st, node, 'vanish (SVD): the new rows of the right factor are zero outside the columns of the block',
+                 z3.ForAll([c, j], z3.Implies(z3.And(z3.Not(incol(j)), c >= lo, c < hi), V.val(c, j) == 0))):
+            st.pc.append(z3.ForAll([i, j], z3.Implies(z3.Not(incol(j)), Tn(i, j, lo, hi) == 0)))
+        return Tn
+    if 'view' in (ou, os_, ov):
+        def is_zero(x):
+            x = z3.simplify(zint(x))
+            return z3.is_int_value(x) and x.as_long() == 0
+        def level(X, axis):
+            if getattr(X, 'is_rv1', False):
+                return (X.origin[1], X.origin[2], None) if X.origin and X.origin[0] == 'view' else (X, None, None)
+            if X.origin and X.origin[0] == 'view':
+                _, base, f0, f1, how = X.origin
+                return base, how[axis], ((f0, f1)[1 - axis], how[1 - axis])
+            return X, None, None
+        Ub, hu, fu = level(U, 1); Sb, hs, _ = level(S, 0); Vb, hv, fv = level(V, 0)
+        # a single array that is a view with offset 0 on the intermediate axis (a slice [:D], or a re-indexing of its free axis) is
+        # peeled on its own: the terms of the sum are unchanged
+        if hu is not None and hu[0] == 'shift' and is_zero(hu[1]):
+            Tb = tri_of(ex, st, node, Ub, S, V); f = fu[0]
+            if prove(ex, st, node, 'congruence (SVD): re-indexed rows / untouched columns of the left factor', z3.ForAll([i, c], U.val(i, c) == Ub.val(f(i), c))):
+                st.pc.append(z3.ForAll([i, j, a, b], Tn(i, j, a, b) == Tb(f(i), j, a, b)))
+            return Tn
+        if hv is not None and hv[0] == 'shift' and is_zero(hv[1]):
+            Tb = tri_of(ex, st, node, U, S, Vb); g = fv[0]
+            if prove(ex, st, node, 'congruence (SVD): re-indexed columns / untouched rows of the right factor', z3.ForAll([c, j], V.val(c, j) == Vb.val(c, g(j)))):
+                st.pc.append(z3.ForAll([i, j, a, b], Tn(i, j, a, b) == Tb(i, g(j), a, b)))
+            return Tn
+        if hs is not None and hs[0] == 'shift' and is_zero(hs[1]):
+            Tb = tri_of(ex, st, node, U, Sb, V)
+            if prove(ex, st, node, 'congruence (SVD): sliced vector of singular values', z3.ForAll([c], S.a(c) == Sb.a(c))):
+                st.pc.append(z3.ForAll([i, j, a, b], Tn(i, j, a, b) == Tb(i, j, a, b)))
+            return Tn
+        if hu is None or hs is None or hv is None:
+            return Tn
+        Tb = tri_of(ex, st, node, Ub, Sb, Vb)
+        f = fu[0]; g = fv[0]
+        if hu[0] == hs[0] == hv[0] == 'gather' and hu[1] is hs[1] and hs[1] is hv[1]:
+            # (subsequence) the three arrays are gathered with the same strictly increasing index vector that enumerates exactly the
+            # kept indices, and every term at an index that is not kept vanishes: the sum over the kept ones is the full sum
+            idx = hu[1]; kept = idx.tags.get('kept'); pos = idx.tags.get('pos'); nfull = zint(Sb.shape[0]); k2, l2 = z3.Ints('k2 l2')
+            tol = idx.tags.get('tol')
+            cond = (tol == 0) if tol is not None and is_z(tol) else z3.BoolVal(False)
+            if kept is not None and prove(ex, st, node, 'subsequence (SVD, tol == 0): the index vector enumerates the kept indices increasingly and every discarded term vanishes',
+                                          z3.Implies(cond, z3.And(z3.ForAll([k2, l2], z3.Implies(z3.And(0 <= k2, k2 < l2, l2 < zint(idx.n)), idx.a(k2) < idx.a(l2))),
+                                                 z3.ForAll([k2], z3.Implies(rng(k2, zint(idx.n)), z3.And(rng(idx.a(k2), nfull), kept(idx.a(k2))))),
+                                                 z3.ForAll([c], z3.Implies(z3.And(rng(c, nfull), kept(c)), z3.And(rng(pos(c), zint(idx.n)), idx.a(pos(c)) == c))),
+                                                 z3.ForAll([c], z3.Implies(z3.And(rng(c, nfull), z3.Not(kept(c))), Sb.a(c) == 0)),
+                                                 z3.ForAll([i, c], U.val(i, c) == Ub.val(f(i), idx.a(c))), z3.ForAll([c], S.a(c) == Sb.a(idx.a(c))),
+                                                 z3.ForAll([c, j], V.val(c, j) == Vb.val(idx.a(c), g(j))))), timeout=40000):
+                st.pc.append(z3.Implies(cond, z3.ForAll([i, j], Tn(i, j, 0, zint(idx.n)) == Tb(f(i), g(j), 0, nfull))))
+            return Tn
+    return Tn
+
+
 def svd_invariant(env, ex, st, node=None):
     k = env['#iter']
     Dn = zint(env['D']); q0 = env['q0']; q1 = env['q1']; qis = env['#qis']
@@ -381,7 +492,14 @@ def svd_invariant(env, ex, st, node=None):
     Gu = gram_of(ex, st, node, u)
     Gv = gram_of(ex, st, node, transposed(v))
     i, j, c, d = z3.Ints('i j c d')
-    return z3.And(
+    tri = z3.BoolVal(True)
+    sv = env.get('s'); A = env.get('A')
+    if getattr(sv, 'is_rv1', False) and getattr(A, 'val', None) is not None:
+        Tn = tri_of(ex, st, node, u, sv, v)
+        visited = lambda q: z3.And(k > 0, q <= qis.a(k - 1))
+        tri = z3.ForAll([i, j], z3.Implies(z3.And(rng(i, m), rng(j, n)),
+                                           Tn(i, j, 0, Dn) == z3.If(z3.And(q0.a(i) == q1.a(j), visited(q0.a(i))), A.val(i, j), 0)))
+    return z3.And(tri,
         z3.ForAll([i, c], z3.Implies(c >= Dn, u.val(i, c) == 0)),
         z3.ForAll([c, j], z3.Implies(c >= Dn, v.val(c, j) == 0)),
         z3.ForAll([c, d], z3.Implies(z3.And(rng(c, Dn), rng(d, Dn)), Gu(c, d, 0, m) == z3.If(c == d, 1, 0))),
@@ -395,12 +513,12 @@ def run_svd(fn='bond_ops.split_matrix_svd', kind='complex'):
     from . import smt
     smt.EXTERNAL[0] = True
     zqr.TRACK_VALUES[0] = True
-    DOTS.clear(); GRAMS.clear(); TRANSPOSED.clear()
+    DOTS.clear(); GRAMS.clear(); TRANSPOSED.clear(); TRIS.clear()
     try:
         return _run_svd(fn, kind)
     finally:
         zqr.TRACK_VALUES[0] = False
-        DOTS.clear(); GRAMS.clear(); TRANSPOSED.clear()
+        DOTS.clear(); GRAMS.clear(); TRANSPOSED.clear(); TRIS.clear()
 
 
 def _run_svd(fn, kind):
@@ -428,7 +546,8 @@ def _run_svd(fn, kind):
         return handler(ex_, node, st_)
     ex.loop_handler = loop_handler
     ex.assume_asserts = {'A.ndim == 2', 'len(q0) == A.shape[0]', 'len(q1) == A.shape[1]', 'is_qsparse(A, [q0, -q1])'}
-    st = State({'A': A0, 'q0': Q0, 'q1': Q1, 'tol': z3.Real('tol'), '#sparse_assumed': True}, requires)
+    tolv = z3.Real('tol')
+    st = State({'A': A0, 'q0': Q0, 'q1': Q1, 'tol': tolv, '#sparse_assumed': True}, requires)
     orig_name = ex.ev_Name
     def ev_Name(e, st_):
         v = orig_name(e, st_)
@@ -449,7 +568,7 @@ def _run_svd(fn, kind):
     report(ex.obligations)
     finals = [s for s in states if s.done and s.raised is None and solver.feasible(s.pc)]
     nob = len(ex.obligations)
-    resu = []; resv = []; can = []
+    resu = []; resv = []; can = []; resp = []
     class _N: lineno = 0
     for s in finals:
         try:
@@ -464,6 +583,12 @@ def _run_svd(fn, kind):
             Gv = gram_of(ex, s, _N, transposed(vm))
             resu.append(solver.implied([p for p in s.pc if is_z(p)], z3.ForAll([c_, d_], z3.Implies(z3.And(rng(c_, Dret), rng(d_, Dret)), Gu(c_, d_, 0, m) == z3.If(c_ == d_, 1, 0))), final=True))
             resv.append(solver.implied([p for p in s.pc if is_z(p)], z3.ForAll([c_, d_], z3.Implies(z3.And(rng(c_, Dret), rng(d_, Dret)), Gv(c_, d_, 0, n) == z3.If(c_ == d_, 1, 0))), final=True))
+            if getattr(sv, 'is_rv1', False):
+                Tn = tri_of(ex, s, _N, um, sv, vm)
+                i_, j_ = z3.Ints('i_ j_')
+                resp.append(solver.implied([p for p in s.pc if is_z(p)], z3.Implies(tolv == 0, z3.ForAll([i_, j_], z3.Implies(z3.And(rng(i_, m), rng(j_, n)), Tn(i_, j_, 0, Dret) == Aval(i_, j_)))), final=True))
+            else:
+                resp.append(None)
             if s is finals[-1]:
                 r_, _ = check_unsat([p for p in s.pc if is_z(p)], timeout=8000, try_cvc5=False)
                 can.append(r_ == 'unsat')
@@ -474,6 +599,9 @@ def _run_svd(fn, kind):
         status = 'discharged' if rs and all(r is True for r in rs) else 'undecided'
         out.append(Verdict(f'{nm}, entry level, {len(rs)} return paths with a shared charge]', 'Z', status,
                            'sum rules: vt/lemmas/Sums.lean; contract of np.linalg.svd assumed' if status == 'discharged' else f'per path: {rs}', 0, fn, 'ensures', 'z3'))
+    statusp = 'discharged' if resp and all(r is True for r in resp) else 'undecided'
+    out.append(Verdict(f'zero_tolerance_reproduces_the_matrix [tol == 0 => u diag(s) v = A, entry level, {len(resp)} return paths with a shared charge]', 'Z', statusp,
+                       'sum rules: vt/lemmas/Sums.lean; contracts of np.linalg.svd and retained_bond_indices (vt/ztrunc.py)' if statusp == 'discharged' else f'per path: {resp}', 0, fn, 'ensures', 'z3'))
     out.append(Verdict('factors_are_isometries', 'Z', 'canary-verified' if any(c is True for c in can) else 'canary-ok',
                        'the facts derived by the sum rules are not contradictory', 0, fn, 'canary', 'z3'))
     tot = time.time() - t0
